@@ -244,7 +244,7 @@ fn mutate_header(chain: &Chain, vh: &packed::VerifiableHeader, m: &Mutation, wha
     let hv: HeaderView = vh.header().into_view();
     let remine = |h: HeaderView| -> HeaderView {
         if m.remine {
-            mine_header(&chain.pow, h, m.val as u128).0
+            crate::lcv::sim::chain::mine_header_bounded(&chain.pow, h, m.val as u128, 50_000).0
         } else {
             h
         }
@@ -282,7 +282,7 @@ fn mutate_header(chain: &Chain, vh: &packed::VerifiableHeader, m: &Mutation, wha
             if m.remine {
                 // keep extra_hash consistent so that later checks are reached
                 let extra = ckb_types::core::ExtraHashView::new(vh.uncles_hash(), ext_opt.as_ref().map(|e| e.calc_raw_data_hash())).extra_hash();
-                let h = mine_header(&chain.pow, hv.as_advanced_builder().extra_hash(extra).build(), m.val as u128).0;
+                let h = crate::lcv::sim::chain::mine_header_bounded(&chain.pow, hv.as_advanced_builder().extra_hash(extra).build(), m.val as u128, 50_000).0;
                 out = out.as_builder().header(h.data()).build();
             }
             out
@@ -309,7 +309,7 @@ fn mutate_header(chain: &Chain, vh: &packed::VerifiableHeader, m: &Mutation, wha
                 // recompute the commitment: extension := mmr hash of the forged root, extra hash, nonce
                 let ext: packed::Bytes = Bytes::from(nr.calc_mmr_hash().as_slice().to_vec()).pack();
                 let extra = ckb_types::core::ExtraHashView::new(vh.uncles_hash(), Some(ext.calc_raw_data_hash())).extra_hash();
-                let h = mine_header(&chain.pow, hv.as_advanced_builder().extra_hash(extra).build(), m.val as u128).0;
+                let h = crate::lcv::sim::chain::mine_header_bounded(&chain.pow, hv.as_advanced_builder().extra_hash(extra).build(), m.val as u128, 50_000).0;
                 out = out.as_builder().extension(Pack::<packed::BytesOpt>::pack(&Some(ext))).header(h.data()).build();
             }
             out
